@@ -26,7 +26,7 @@ func init() {
 		Level: "fault_enumeration",
 		Rule: "the C01 packet enumeration plus malformed-but-constructible packets (QoS 3, no filters, no reason codes) and the zero value &T{} of every type, written to a scripted io.Writer. " +
 			"Success path (every packet): exactly one Write call whose bytes are exactly one frame (first byte of the type, minimal remaining-length field equal to the bytes that follow; for in-domain packets the specification decoder consumes them exactly), returned n == bytes accepted == frame length == the N printed by String() as 'N bytes'. " +
-			"Decoded path: every frame of the valid-frame language V is decoded and the decoded packet is written (success-path oracle). Fault path: for the bases, every single-field deviation and the size-ladder packets, the writer fails before writing (0,E) and after accepting k bytes (k,E) for EVERY k below the frame length (frames <= 4 KiB; for larger frames k in {0,1,2,every field boundary of the field map,len-1}): WriteTo must return exactly (k, E) having made one Write call; at k in {0,1,len/2,len-1} E additionally takes four other shapes (wrapping io.EOF, io.ErrUnexpectedEOF, io.ErrShortWrite; a net.Error-like value with Temporary() and Timeout() true) and the writer either keeps failing or accepts every later call. Undefined.WriteTo must fail without a Write call. Rewrite path: every packet type (constructor value, full packet, packet decoded from the full frame) written once, then changed through every setter (every pair from the full packet), then written again: the second write is judged by the success-path oracle. " +
+			"every packet is also written to five other writer implementations (bufio.Writer with a 16- and a 4096-byte buffer, a writer of own type offering WriteString/WriteByte/ReadFrom, bytes.Buffer, strings.Builder): same bytes, same count, no error. Decoded path: every frame of the valid-frame language V is decoded and the decoded packet is written (success-path oracle). Fault path: for the bases, every single-field deviation and the size-ladder packets, the writer fails before writing (0,E) and after accepting k bytes (k,E) for EVERY k below the frame length (frames <= 4 KiB; for larger frames k in {0,1,2,every field boundary of the field map,len-1}): WriteTo must return exactly (k, E) having made one Write call; at k in {0,1,len/2,len-1} E additionally takes four other shapes (wrapping io.EOF, io.ErrUnexpectedEOF, io.ErrShortWrite; a net.Error-like value with Temporary() and Timeout() true) and the writer either keeps failing or accepts every later call. Undefined.WriteTo must fail without a Write call. Rewrite path: every packet type (constructor value, full packet, packet decoded from the full frame) written once, then changed through every setter (every pair from the full packet), then written again: the second write is judged by the success-path oracle. " +
 			"distinct_nontrivial = distinct (packet, k) fault cases plus distinct packets on the success path.",
 		Assumptions: []string{
 			"E is a fresh error value per execution; identity is checked with errors.Is",
@@ -67,6 +67,12 @@ func c10Success(q mq.Packet, t byte, specDecodable bool, desc string) *core.Find
 		return &core.Finding{Class: tname + "/" + class, Sig: map[string]string{"type": tname}, Detail: desc + ": " + what}
 	}
 	resetGlobals()
+	// the size String() prints BEFORE the packet is written for the first
+	// time must be the size of that frame too
+	var sBefore string
+	if res := guarded(0, func() { sBefore = q.String() }); res.Panic != "" {
+		return mk("string-panic", res.Panic)
+	}
 	w := &env.Writer{FailAfter: -1}
 	var n int64
 	var err error
@@ -91,6 +97,21 @@ func c10Success(q mq.Packet, t byte, specDecodable bool, desc string) *core.Find
 			return mk("not-one-frame", fmt.Sprintf("specification decoder: consumed %d of %d bytes, err %v", m, len(w.Buf), derr))
 		}
 	}
+	// the same packet through the other writer implementations: the bytes
+	// that arrive, the count and the error must be the same
+	for wk := env.WBufio16; wk < env.NWKinds; wk++ {
+		sw := &env.Writer{FailAfter: -1}
+		ww, collect := env.WrapWriter(wk, sw)
+		var n2 int64
+		var err2 error
+		res := guarded(0, func() { n2, err2 = q.WriteTo(ww) })
+		if res.Panic != "" {
+			return mk("write-panic/"+wk.String(), res.Panic)
+		}
+		if got := collect(); err2 != nil || int(n2) != len(w.Buf) || !bytes.Equal(got, w.Buf) {
+			return mk("writer-kind/"+wk.String(), fmt.Sprintf("written to a %s: n=%d err=%v bytes %s; to the plain writer: n=%d bytes %s", wk, n2, err2, abbrevHex(got), n, abbrevHex(w.Buf)))
+		}
+	}
 	var s string
 	res = guarded(0, func() { s = q.String() })
 	if res.Panic != "" {
@@ -103,6 +124,11 @@ func c10Success(q mq.Packet, t byte, specDecodable bool, desc string) *core.Find
 	if got, _ := strconv.Atoi(m[len(m)-1][1]); got != len(w.Buf) {
 		return mk("string-size", fmt.Sprintf("String() prints %d bytes, the frame has %d (%q)", got, len(w.Buf), clip(s, 100)))
 	}
+	if mb := bytesRe.FindAllStringSubmatch(sBefore, -1); len(mb) > 0 {
+		if got, _ := strconv.Atoi(mb[len(mb)-1][1]); got != len(w.Buf) {
+			return mk("string-size-before-write", fmt.Sprintf("String() called before the first WriteTo prints %d bytes, the frame then written has %d (%q)", got, len(w.Buf), clip(sBefore, 100)))
+		}
+	}
 	return nil
 }
 
@@ -114,21 +140,38 @@ func c10Fault(q mq.Packet, t byte, k int, desc string) *core.Finding {
 // c10FaultV: the same with a given shape of the writer's error and,
 // with recoverW, a writer whose later calls succeed again.
 func c10FaultV(q mq.Packet, t byte, k int, desc string, ek env.ErrKind, recoverW bool) *core.Finding {
+	return c10FaultW(q, t, k, desc, ek, recoverW, false)
+}
+
+func c10FaultW(q mq.Packet, t byte, k int, desc string, ek env.ErrKind, recoverW, rich bool) *core.Finding {
 	tname := bind.TypeNames[t]
 	resetGlobals()
 	E := env.NewError(ek, "W")
 	w := &env.Writer{FailAfter: k, E: E, Recover: recoverW}
+	var dst io.Writer = w
+	if rich {
+		dst = &env.RichWriter{W: w}
+		desc += " [writer of own type with WriteString/WriteByte/ReadFrom]"
+	}
 	if ek != env.EPlain || recoverW {
 		desc += fmt.Sprintf(" [error shape %s, later Write calls succeed: %v]", ek, recoverW)
 	}
 	var n int64
 	var err error
-	res := guarded(0, func() { n, err = q.WriteTo(w) })
+	res := guarded(0, func() { n, err = q.WriteTo(dst) })
 	mk := func(class, what string) *core.Finding {
 		return &core.Finding{Class: tname + "/fault-" + class, Sig: map[string]string{"type": tname}, Detail: fmt.Sprintf("%s, writer accepts %d bytes then fails: %s", desc, k, what)}
 	}
 	if res.Panic != "" {
 		return mk("panic", res.Panic)
+	}
+	if rich {
+		// through the own-type writer with WriteString/WriteByte/ReadFrom:
+		// how many calls arrive is free, the count and the error are not
+		if !errors.Is(err, E) || int(n) != len(w.Buf) {
+			return mk("rich-writer", fmt.Sprintf("WriteTo returned n=%d err=%v, the writer accepted %d bytes and reported %v", n, err, len(w.Buf), E))
+		}
+		return nil
 	}
 	if len(w.Calls) != 1 {
 		return mk("write-calls", fmt.Sprintf("%d Write calls", len(w.Calls)))
@@ -223,6 +266,18 @@ func runC10(x *core.Ctx) {
 			if kk < 0 || kk >= n {
 				continue
 			}
+			x.Eval("fault-rich-writer." + stratum)
+			if f := c10FaultW(q, p.Type, kk, desc, env.EPlain, false, true); f != nil {
+				kk := kk
+				x.Report(f, func() core.Case {
+					c := mkCase()
+					c.Params["k"], c.Params["rich"] = kk, true
+					return c
+				}, func() *core.Finding {
+					q2, _, _ := buildGuarded(p)
+					return c10FaultW(q2, p.Type, kk, desc, env.EPlain, false, true)
+				})
+			}
 			for ek := env.EPlain; ek < env.NErrKinds; ek++ {
 				for _, rec := range []bool{false, true} {
 					if ek == env.EPlain && !rec {
@@ -289,6 +344,30 @@ func runC10(x *core.Ctx) {
 							return core.Case{Harness: "c10.rewrite", Choices: path, Params: map[string]any{"type": s.Name, "init": init}}
 						}, func() *core.Finding { return c10Rewrite(s, ops, init, path) })
 					}
+				}
+			}
+		}
+	}
+	// CONNECT packets whose will message was changed through the shared
+	// pointer after SetWill (outside the C01 domain for round trips; one
+	// frame and a truthful size are still owed)
+	if x.Mine() {
+		for _, t := range c11ModTargets() {
+			t := t
+			x.Eval("will-changed-after-attach")
+			mkq := func() mq.Packet {
+				q, err, res := buildGuarded(gen.Schemas[1].Make(t.Vec))
+				if err != nil || res.Panic != "" {
+					return nil
+				}
+				c11Modify(q, t.Mod)
+				return q
+			}
+			if q := mkq(); q != nil {
+				if f := c10Success(q, 1, false, t.describe()); f != nil {
+					x.Report(f, func() core.Case {
+						return core.Case{Harness: "c10.willmod", Params: map[string]any{"vec": []int(t.Vec), "mod": t.Mod}}
+					}, func() *core.Finding { return c10Success(mkq(), 1, false, t.describe()) })
 				}
 			}
 		}
@@ -387,6 +466,14 @@ func c10Decoded(v VFrame) *core.Finding {
 
 func replayC10(c core.Case) *core.Finding {
 	switch c.Harness {
+	case "c10.willmod":
+		t := c11Target{Type: 1, Vec: vecParam(c), Mod: paramInt(c.Params, "mod")}
+		q, err, res := buildGuarded(gen.Schemas[1].Make(t.Vec))
+		if err != nil || res.Panic != "" {
+			return nil
+		}
+		c11Modify(q, t.Mod)
+		return c10Success(q, 1, false, t.describe())
 	case "c10.decoded":
 		b := unhex(c.Frame)
 		return c10Decoded(VFrame{B: b, Name: "replayed"})
@@ -405,7 +492,8 @@ func replayC10(c core.Case) *core.Finding {
 		}
 		if _, ok := c.Params["k"]; ok {
 			rec, _ := c.Params["recover"].(bool)
-			return c10FaultV(q, pc.P.Type, paramInt(c.Params, "k"), pc.describe(), env.ErrKind(paramInt(c.Params, "errkind")), rec)
+			rich, _ := c.Params["rich"].(bool)
+			return c10FaultW(q, pc.P.Type, paramInt(c.Params, "k"), pc.describe(), env.ErrKind(paramInt(c.Params, "errkind")), rec, rich)
 		}
 		return c10Success(q, pc.P.Type, inC01Domain(pc.P), pc.describe())
 	case "c10.malformed":
